@@ -66,6 +66,9 @@ type Scenario struct {
 	NoThoroughBounded bool
 	// ThoroughOnly scenarios are skipped by the quick tier.
 	ThoroughOnly bool
+	// NoShard: the thorough tier explores the scenario in one worker process (small scenarios of
+	// large menus: sharding would only repeat the process start and the first levels).
+	NoShard bool
 	// Horizon is the maximal number of scheduling points of one execution (default 20000).
 	Horizon int
 }
